@@ -1264,6 +1264,11 @@ def _iter_leftmost_one(ctx, roles, v, info, rules):
             ctx.check(shape, "ITER-LM", b, "absolute-offsets:" + tag, b.loc(pbi),
                       "positions must be absolute: the index starts at self.pos and is stepped by one exactly once per round; found %s (updates at %s)"
                       % (show(idx), upd))
+        elif v.tag == "bw" and _suffix_enumerate(recv):
+            # `haystack[self.pos..].iter().enumerate()`: offsets relative to the suffix cut at self.pos; made absolute where the
+            # resume offset is computed (clause resume-offset)
+            info.suffix_relative = True
+            ctx.ok("ITER-LM", b, "absolute-offsets:" + tag, b.loc(pbi), "offsets are relative to haystack[self.pos..] and re-based on self.pos")
         elif v.tag == "bw":
             # skip(enumerate(iter(haystack)), self.pos): enumerate must be applied before skip
             shape = recv[0] == "call" and core.callee_base(recv[1]) == "core::iter::Iterator::skip" and \
@@ -1417,6 +1422,22 @@ def _iter_leftmost_one(ctx, roles, v, info, rules):
         if want("LAZY-END") or want("ITER-LM"):
             ctx.check(okw, "ITER-LM", b, "resume-offset:" + tag, b.loc(wbi, wsi),
                       "self.pos must become (index of the byte just consumed) + 1; found %s" % show(wt), show(wt))
+    elif v.tag == "bw" and getattr(info, "suffix_relative", False):
+        # start + offset + 1 with start = the value of self.pos the suffix was cut at (self.pos is not read again inside the loop)
+        def flat_(t):
+            if t[0] in ("bin", "ovf") and t[1] == "Add":
+                return flat_(t[2]) + flat_(t[3])
+            return [t]
+        parts_ = flat_(wt)
+        okw = len(parts_) == 3 and len([p_ for p_ in parts_ if p_[0] == "field" and p_[3] == "pos" and self_param(p_[1])]) == 1 and \
+            len([p_ for p_ in parts_ if _lm_index(p_, psite)]) == 1 and len([p_ for p_ in parts_ if is_const(p_, 1)]) == 1
+        reads_ = [(bi_, si_) for bi_, si_, st_ in b.stmts() if st_["k"] == "assign" and b.in_cycle(bi_) and
+                  any(core.last_field(pl_) and core.last_field(pl_)["name"] == "pos" and core.last_field(pl_)["adt"] == I
+                      for pl_ in core._places(st_["rv"], []))]
+        if want("LAZY-END") or want("ITER-LM"):
+            ctx.check(okw and not reads_, "ITER-LM", b, "resume-offset:" + tag, b.loc(wbi, wsi),
+                      "self.pos must become start + (offset of the byte just consumed in haystack[start..]) + 1, start being the value "
+                      "of self.pos the suffix was cut at (no read of self.pos inside the loop); found %s" % show(wt), show(wt))
     elif v.tag == "bw":
         # pos + 1 where pos = enumerate index of the pull
         okw = wt[0] == "bin" and wt[1] == "Add" and (
@@ -1487,6 +1508,26 @@ def _iter_leftmost_one(ctx, roles, v, info, rules):
         for vw, bi, si in info.nones:
             ctx.check(b.edge_guards((sbi, none_arm), bi), "ITER-EXHAUST", b, "none-only-at-end:" + tag, b.loc(bi, si),
                       "`None` may be returned only when the haystack is exhausted")
+
+
+def _suffix_enumerate(recv):
+    """enumerate(iter(haystack[RangeFrom{start: self.pos}]))"""
+    if not (recv[0] == "call" and isinstance(recv[1], str) and core.callee_base(recv[1]) == "core::iter::Iterator::enumerate" and recv[2]):
+        return False
+    x = recv[2][0]
+    while x[0] == "call" and isinstance(x[1], str) and core.callee_base(x[1]) in ("core::slice::iter", "core::iter::IntoIterator::into_iter") and x[2]:
+        x = x[2][0]
+    if x[0] == "payload":
+        x = x[1]
+    rng = None
+    if x[0] == "elem":
+        rng = x[2]
+    elif x[0] == "call" and isinstance(x[1], str) and core.callee_base(x[1]) in ("core::slice::get", "core::ops::Index::index") and len(x[2]) == 2:
+        rng = x[2][1]
+    if rng is None or rng[0] != "agg" or rng[1] != "core::ops::RangeFrom":
+        return False
+    st = dict(rng[3]).get("start")
+    return st is not None and st[0] == "field" and st[3] == "pos" and self_param(st[1])
 
 
 def _lm_index(t, psite):
